@@ -17,3 +17,9 @@ open MtailVerif.C03
 #print axioms MtailVerif.C03.checkerBefore_skeletons
 #print axioms MtailVerif.C03.checkerAfter_skeletons
 #print axioms MtailVerif.C03.patternEval_skeletons
+#print axioms MtailVerif.C03.f_checker_checker_skeletons
+#print axioms MtailVerif.C03.f_codegen_codegen_skeletons
+#print axioms MtailVerif.C03.f_parser_driver_skeletons
+#print axioms MtailVerif.C03.f_ast_ast_skeletons
+#print axioms MtailVerif.C03.f_ast_walk_skeletons
+#print axioms MtailVerif.C03.f_position_position_skeletons
